@@ -14,8 +14,8 @@ Import ListNotations.
    the time of issue, serverAuth, strict SAN rules, and name match -- for the identity the client asked for (SNI, or
    the local address without SNI; DNS name incl. wildcard-looking and IDN A-label, or IP literal), for every local
    clock offset tz the validity constants allow, with and without CN fallback in the verifier. *)
-Theorem C16_verifies : forall idna off exp guard issuer serial now tz r c cs g,
-  issue idna off exp guard issuer serial (now + tz) r = Ok c ->
+Theorem C16_verifies : forall idna off exp guard crit issuer serial now tz r c cs g,
+  issue idna off exp guard crit issuer serial (now + tz) r = Ok c ->
   (off + tz <= 0)%Z -> (0 <= off + exp + tz)%Z ->
   ca_ok issuer now = true ->
   ip_or_dns_name idna (requested r) = Ok g -> target_clean g = true ->
@@ -32,7 +32,7 @@ Proof. exact validity_source. Qed.
 Print Assumptions C16_validity_source.
 
 Theorem C16_verifies_source : forall idna issuer serial now tz r c cs g,
-  issue idna VALIDITY_OFFSET CERT_EXPIRY CN_GUARDED issuer serial (now + tz) r = Ok c ->
+  issue idna VALIDITY_OFFSET CERT_EXPIRY CN_GUARDED SAN_CRIT_BY_SUBJECT issuer serial (now + tz) r = Ok c ->
   (-86400 <= tz <= 86400)%Z ->
   ca_ok issuer now = true ->
   ip_or_dns_name idna (requested r) = Ok g -> target_clean g = true ->
@@ -42,8 +42,8 @@ Print Assumptions C16_verifies_source.
 
 (* Every SAN of the served certificate is (the encoding of) the conversion of the requested name, of the server
    address, of the upstream CN, or an upstream SAN; the CN is the text of one of those SANs. *)
-Theorem C16_names_allowed : forall idna off exp guard issuer serial now r c,
-  issue idna off exp guard issuer serial now r = Ok c ->
+Theorem C16_names_allowed : forall idna off exp guard crit issuer serial now r c,
+  issue idna off exp guard crit issuer serial now r = Ok c ->
   (forall g, In g (c_sans c) -> exists g0, g = wire_gname g0 /\ allowed idna r g0)
   /\ (forall v, c_cn c = Some v ->
         exists g0, In (wire_gname g0) (c_sans c) /\ allowed idna r g0 /\ v = str_value g0).
@@ -51,9 +51,9 @@ Proof. exact names_allowed. Qed.
 Print Assumptions C16_names_allowed.
 
 (* The same for a store with any history of earlier generated certificates (cache hits included). *)
-Theorem C16_names_allowed_any_store : forall idna off exp guard issuer serial now st r st' c,
+Theorem C16_names_allowed_any_store : forall idna off exp guard crit issuer serial now st r st' c,
   store_wf st ->
-  issue_on idna off exp guard issuer serial now st r = Ok (st', c) ->
+  issue_on idna off exp guard crit issuer serial now st r = Ok (st', c) ->
   store_wf st'
   /\ (forall g, In g (c_sans c) -> exists g0, g = wire_gname g0 /\ allowed idna r g0)
   /\ (forall v, c_cn c = Some v ->
@@ -61,18 +61,37 @@ Theorem C16_names_allowed_any_store : forall idna off exp guard issuer serial no
 Proof. exact served_from_any_store. Qed.
 Print Assumptions C16_names_allowed_any_store.
 
-(* Issued and signed by the CA, usable for server authentication, non-empty SAN that is critical when there is
-   no CN, AKI equal to the SKI of the CA, validity = local now + offset .. + expiry. *)
-Theorem C16_issued_by_ca : forall idna off exp guard issuer serial now r c,
-  issue idna off exp guard issuer serial now r = Ok c ->
+(* Issued and signed by the CA, usable for server authentication, non-empty SAN that is critical when the
+   subject is empty, AKI equal to the SKI of the CA, validity = local now + offset .. + expiry. *)
+Theorem C16_issued_by_ca : forall idna off exp guard crit issuer serial now r c,
+  issue idna off exp guard crit issuer serial now r = Ok c ->
   c_issuer c = ca_subject issuer /\ c_signer c = ca_key issuer
   /\ In EKU_SERVER_AUTH (c_eku c)
   /\ c_sans c <> []
-  /\ (c_cn c = None -> c_san_critical c = true)
+  /\ (has_subject c = false -> c_san_critical c = true)
   /\ (forall s, ca_ski issuer = Some s -> c_aki c = s)
   /\ c_nb c = (now + off)%Z /\ c_na c = (now + off + exp)%Z.
 Proof. exact issued_by_ca. Qed.
 Print Assumptions C16_issued_by_ca.
+
+(* RFC 5280 4.2.1.6 in both directions (subjectAltName critical exactly when the subject is empty; strict validators
+   such as the one in `cryptography` reject a critical SAN next to a non-empty subject).  FALSE of the code as it
+   stands (critical = no CN): a name of 64+ characters with an upstream organization -- finding
+   san-critical-with-nonempty-subject. *)
+Theorem C16_san_criticality_refuted :
+  exists c, issue no_idna VALIDITY_OFFSET CERT_EXPIRY false false ca0 5 0 long_name_org_req = Ok c
+            /\ has_subject c = true /\ c_san_critical c = true.
+Proof. exact critical_with_subject_unrepaired. Qed.
+Print Assumptions C16_san_criticality_refuted.
+
+(* ... and true for the repaired expression (critical = not subject), whose complement is the finding; the direction
+   that strict OpenSSL enforces (empty subject -> critical) holds for both and is part of C16_issued_by_ca/C16_verifies. *)
+Theorem C16_san_criticality_partial : forall idna off exp guard crit issuer serial now r c,
+  crit = true ->
+  issue idna off exp guard crit issuer serial now r = Ok c ->
+  c_san_critical c = negb (has_subject c).
+Proof. exact san_criticality. Qed.
+Print Assumptions C16_san_criticality_partial.
 
 (* A certificate IS served whenever the requested name and the server address are names (IP literal or
    IDNA-encodable) ... full statement: for every upstream certificate.  This is FALSE of the code as it stands
@@ -81,25 +100,25 @@ Theorem C16_issues_refuted :
   exists r,
     encodable no_idna (requested r)
     /\ (forall a, r_addr r = Some a -> encodable no_idna a)
-    /\ issue no_idna VALIDITY_OFFSET CERT_EXPIRY false ca0 5 0 r = Err EIdna.
+    /\ issue no_idna VALIDITY_OFFSET CERT_EXPIRY false false ca0 5 0 r = Err EIdna.
 Proof. exact issues_refuted. Qed.
 Print Assumptions C16_issues_refuted.
 
 (* ... and true under the guard that is exactly the complement of the finding: the upstream CN, when it is used,
    converts (upstream_cn_ok), or the conversion is guarded (the repaired code).  The remaining hypothesis is the
    known finding upstream-empty-first-san (first name empty -> NameAttribute raises) and an ASCII CRL URL. *)
-Theorem C16_issues_partial : forall idna off exp guard issuer serial now r,
+Theorem C16_issues_partial : forall idna off exp guard crit issuer serial now r,
   encodable idna (requested r) -> (forall a, r_addr r = Some a -> encodable idna a) ->
   (guard = true \/ upstream_cn_ok idna r) ->
   (forall n, get_cert_names idna guard serial r = Ok n ->
      n_cn n <> Some [] /\ (forall u, n_crl n = Some u -> is_ascii u = true)) ->
-  exists c, issue idna off exp guard issuer serial now r = Ok c.
+  exists c, issue idna off exp guard crit issuer serial now r = Ok c.
 Proof. exact issues. Qed.
 Print Assumptions C16_issues_partial.
 
 (* the input of the refutation is served once the conversion is guarded *)
 Theorem C16_issues_repaired_witness :
-  exists c, issue no_idna VALIDITY_OFFSET CERT_EXPIRY true ca0 5 0 long_cn_req = Ok c
+  exists c, issue no_idna VALIDITY_OFFSET CERT_EXPIRY true false ca0 5 0 long_cn_req = Ok c
             /\ c_sans c = [GDNS (B "example.com")].
 Proof. exact guarded_cn_issues. Qed.
 Print Assumptions C16_issues_repaired_witness.
@@ -114,7 +133,7 @@ Print Assumptions C16_name_match_reflexive.
    address, clock one hour ahead: the exact certificate, accepted for the SNI and a label under it, rejected for two
    labels, the bare suffix, a foreign IP and after expiry. *)
 Theorem C16_nonvacuous :
-  issue no_idna (-172800) 17193600 false ca0 5 3600 sample_req = Ok sample_cert
+  issue no_idna (-172800) 17193600 false false ca0 5 3600 sample_req = Ok sample_cert
   /\ x509_ok false ca0 sample_cert 0 (THost (B "*.example.com")) = true
   /\ x509_ok false ca0 sample_cert 0 (THost (B "www.example.com")) = true
   /\ x509_ok false ca0 sample_cert 0 (THost (B "a.b.example.com")) = false
